@@ -445,12 +445,12 @@ def build_callbacks(cfg, R, plan, nn_state, tmpdir):
                 slot.append(common.api_call(MetricEvaluator, EVAL_ORDER,
                                             dict(period=d["period"], metrics=metrics, verbose=bool(d.get("verbose")),
                                                  log=os.path.join(tmpdir, "eval%d.csv" % i) if d.get("log") else None,
-                                                 extra_kw=1)))
+                                                 extra_kw=1), defaults=dict(verbose=False, log=None)))
             else:
                 ev = common.api_call(ObservableEvaluator, OBSEVAL_ORDER,
                                      dict(period=d["period"], observables=[SigmaZ()], verbose=bool(d.get("verbose")),
                                           log=os.path.join(tmpdir, "eval%d.csv" % i) if d.get("log") else None,
-                                          num_samples=4))
+                                          num_samples=4), defaults=dict(verbose=False, log=None))
 
                 def stats(nn, _i=i, **kw):
                     R.hist.append(dict(k="EV", cb=_i, ep=R.cur_ep))
@@ -480,7 +480,8 @@ def build_callbacks(cfg, R, plan, nn_state, tmpdir):
             slot.append(common.api_call(ModelSaver, SAVER_ORDER,
                                         dict(period=d["period"], folder_path=os.path.join(tmpdir, "sv%d" % i), file_name=fmt,
                                              save_initial=bool(d["initial"]), metadata=meta,
-                                             metadata_only=bool(d.get("metaonly")))))
+                                             metadata_only=bool(d.get("metaonly"))),
+                                        defaults=dict(save_initial=True, metadata=None, metadata_only=False)))
         elif t == "logger":
             def logfn(msg, _i=i):
                 m = re.match(r"Epoch (-?\d+):", msg)
@@ -507,7 +508,8 @@ def build_callbacks(cfg, R, plan, nn_state, tmpdir):
             else:
                 slot.append(common.api_call(EarlyStopping, EARLY_ORDER,
                                             dict(period=d["period"], tolerance=tol, patience=d["patience"],
-                                                 evaluator_callback=evcb, quantity_name=name, criterion=d["crit"])))
+                                                 evaluator_callback=evcb, quantity_name=name, criterion=d["crit"]),
+                                            defaults=dict(criterion="relative")))
         else:
             raise common.MachineryError("unknown callback descriptor %r" % (d,))
     return objs
